@@ -159,9 +159,19 @@ def order_case(case, res):
     res.sample({"count": n1, "pairs": len(FRC) * len(grid), "comparisons": 6}, 1)
 
 
-def check_reductions(res, case, arr_vals, shape, sub):
-    """arr_vals: list of (n, f); build the Phase array with `shape` and check every reduction on every axis."""
-    P = Phase(np.array([v[0] for v in arr_vals]).reshape(shape), np.array([v[1] for v in arr_vals]).reshape(shape))
+def check_reductions(res, case, arr_vals, shape, sub, layout="C"):
+    """arr_vals: list of (n, f); build the Phase array with `shape` and check every reduction on every axis.
+    layout "T": the same logical array as a transposed view of a C-contiguous array (memory order != index order)."""
+    ints, fracs = np.array([v[0] for v in arr_vals]).reshape(shape), np.array([v[1] for v in arr_vals]).reshape(shape)
+    if layout == "T" and len(shape) > 1:
+        P = Phase(np.ascontiguousarray(ints.T), np.ascontiguousarray(fracs.T)).T
+        if P.shape != tuple(shape) or P.flags["C_CONTIGUOUS"]:
+            res.skipped["transposed view not available"] += 1
+            return
+        sub = dict(sub, layout="transposed view")
+        res.hits["transposed view"] += 1
+    else:
+        P = Phase(ints, fracs)
     E = np.array(ex(P), dtype=object).reshape(shape)
     axes = [None] + list(range(len(shape))) + ([-1] if len(shape) > 1 else [])
     for axis in axes:
@@ -258,6 +268,7 @@ def reduce_case(case, res):
             check_reductions(res, case, vals, (length,), {"values": [list(v) for v in vals]})
             if length == 4:
                 check_reductions(res, case, vals, (2, 2), {"values": [list(v) for v in vals]})
+                check_reductions(res, case, vals, (2, 2), {"values": [list(v) for v in vals]}, layout="T")
             e = [F(a) + F(b) for a, b in vals]
             if len(set(e)) < len(e):
                 res.hits["array with exact ties"] += 1
@@ -299,6 +310,7 @@ def reduce4_case(case, res):
         res.state(("red4", combo))
         check_reductions(res, case, vals, (4,), {"values": [list(v) for v in vals]})
         check_reductions(res, case, vals, (2, 2), {"values": [list(v) for v in vals]})
+        check_reductions(res, case, vals, (2, 2), {"values": [list(v) for v in vals]}, layout="T")
         if combo[0] <= 1:
             inplace_history(res, case, vals, {"values": [list(v) for v in vals]})
     res.hits["2-D reshapes"] += 1
@@ -404,6 +416,33 @@ def render_case(case, res):
                         res.hits["round trip"] += 1
                 except Exception as e:
                     res.violation("roundtrip|raised", f"from_string({s!r}): {type(e).__name__}: {e} [{sub}]", case, sub)
+            # optional keywords that spell the default: the same text
+            import pickle as _pickle
+            base_default, base_p12 = str(p.to_string()), str(p.to_string(precision=12))
+            for kwname, kw in (("unit='cycle'", {"unit": "cycle"}), ("unit='cy'", {"unit": "cy"}), ("unit=u.Unit('cycle')", {"unit": u.Unit("cycle")}),
+                               ("unit=unpickled u.cycle", {"unit": _pickle.loads(_pickle.dumps(u.cycle))}), ("unit=u.cycle", {"unit": u.cycle}),
+                               ("decimal=True", {"decimal": True}), ("alwayssign=False", {"alwayssign": False})):
+                try:
+                    a_, b_ = str(p.to_string(**kw)), str(p.to_string(precision=12, **kw))
+                except Exception as e:
+                    res.violation(f"to_string|keyword {kwname} raised", f"{type(e).__name__}: {e} [{sub}]", case, dict(sub, kw=kwname))
+                    continue
+                res.transitions += 2
+                if a_ != base_default or b_ != base_p12:
+                    res.violation(f"to_string|keyword spelling the default changes the text", f"to_string({kwname}) = {a_!r} / {b_!r}, "
+                                  f"without it {base_default!r} / {base_p12!r} [{sub}]", case, dict(sub, kw=kwname))
+                    break
+            else:
+                res.hits["unit keyword spellings"] += 1
+            try:
+                sp = str(p.to_string(alwayssign=True, precision=6))
+                res.transitions += 1
+                want_sp = str(p.to_string(precision=6))
+                want_sp = want_sp if want_sp.startswith("-") else "+" + want_sp
+                if sp != want_sp:
+                    res.violation("to_string|alwayssign", f"{sp!r}, expected {want_sp!r} [{sub}]", case, sub)
+            except Exception as e:
+                res.violation("to_string|alwayssign raised", f"{type(e).__name__}: {e} [{sub}]", case, sub)
             for k in range(0, 13):
                 forms = [("to_string(precision)", lambda: str(p.to_string(precision=k)))]
                 if k >= 1:
@@ -454,7 +493,7 @@ def main(argv=None):
         PID, gen_cases=gen_cases, check_case=check_case, describe=describe,
         required_hits=["near-tie below double resolution", "exact tie", "array with exact ties", "array with sub-ulp near-ties",
                        "2-D reshapes", "zero or missing integer part", "zero or missing fractional part", "D exponent",
-                       "round trip", "precision < 2 with small fraction", "use, update in place, sort again"],
+                       "round trip", "precision < 2 with small fraction", "use, update in place, sort again", "transposed view", "unit keyword spellings"],
         assumptions=["for exact ties any index/permutation that realises the exact ordering is accepted",
                      "the imaginary flag of an exactly zero value is unconstrained", "format(p, '.0f') (no decimals) falls to the "
                      "Quantity formatter and is not constrained"],
